@@ -29,7 +29,7 @@ class Suite:
         return os.path.join(self.root, "tp_folder")
 
 
-def generate(rng, n_setups=None, n_leaves=None, same_names=True, subset_producers=False, removable=False):
+def generate(rng, n_setups=None, n_leaves=None, same_names=False, subset_producers=False, removable=False):
     """subset_producers: a multi-producer group is only depended on by tests that use all of the group's vms"""
     """returns (groups text to append, truth) - truth: dict test -> {vm: (kind, parent test, state)}; leaves: name -> vms"""
     n_setups = rng.randint(2, 6) if n_setups is None else n_setups
@@ -108,6 +108,22 @@ EXTRA_VM_PRODUCER = (
     {"gl3.va": (["vm1", "vm2", "vm3"], {"vm1": ("vms", "on_customize", "on_customize"), "vm2": ("images", "connect", "connect"), "vm3": ("images", "customize", "customize")}, {"vm3": "s3a"}),
      "gl3.vb": (["vm1", "vm2", "vm3"], {"vm1": ("vms", "on_customize", "on_customize"), "vm2": ("images", "connect", "connect"), "vm3": ("images", "customize", "customize")}, {"vm3": "s3b"}),
      "gl5": (["vm2", "vm3"], {"vm2": ("images", "customize", "customize"), "vm3": ("images", "gl3", None)}, {})})
+
+
+STATE_NAMED_AFTER_TEST = (
+    # product-test variants whose states carry the test's own name: the clone of a dependant is then named `gl2.gl1.va` and the
+    # name-based lookup of the parents `gl1` of another dependant also finds it
+    ["    - gl1:", "        vms = vm2 vm3", "        type = generated_leaf_1",
+     "        get_images_vm2 = customize", "        get_state_images_vm2 = customize",
+     "        get_images_vm3 = customize", "        get_state_images_vm3 = customize",
+     "        variants:", "            - va:", "                set_state_images_vm2 = gl1.va", "            - vb:", "                set_state_images_vm2 = gl1.vb",
+     "    - gl2:", "        vms = vm2 vm3", "        type = generated_leaf_2", "        get_images_vm2 = gl1",
+     "        get_images_vm3 = customize", "        get_state_images_vm3 = customize",
+     "    - gl3:", "        vms = vm2", "        type = generated_leaf_3", "        get_images_vm2 = gl1"],
+    {"gl1.va": (["vm2", "vm3"], {"vm2": ("images", "customize", "customize"), "vm3": ("images", "customize", "customize")}, {"vm2": "gl1.va"}),
+     "gl1.vb": (["vm2", "vm3"], {"vm2": ("images", "customize", "customize"), "vm3": ("images", "customize", "customize")}, {"vm2": "gl1.vb"}),
+     "gl2": (["vm2", "vm3"], {"vm2": ("images", "gl1", None), "vm3": ("images", "customize", "customize")}, {}),
+     "gl3": (["vm2"], {"vm2": ("images", "gl1", None)}, {})})
 
 
 def write(root, rng, fixed=None, **kw):
